@@ -1,14 +1,32 @@
 (* C09 — results are insensitive to inter-token whitespace and ignored comments.  Statements only.
-   PARTIAL.  Proved (on the reference reading `peg`, which C01_peg_equiv ties to the parser on `in_class`):
-   suffix locality and absorption of leading whitespace, for grammars whose tokens only look forward (Literal, CaselessLiteral,
-   Word without as_keyword, CharsNotIn, White, Empty, NoMatch, LineEnd, StringEnd — Keyword, WordStart/End, LineStart,
-   StringStart, GoToColumn are adjacency/position sensitive: F-09) and that contain no repetition construct (recursion through
-   Forward is allowed; ZeroOrMore/OneOrMore use a length-derived loop bound that the shift argument does not cover yet).
-   Not proved: that the part of the derivation BEFORE an interior insertion point is unaffected, comments via ignore(), and
-   the Combine converse — these are decided by the metamorphic oracle of tools/props/c09.py on the implementation and by
-   the model-vs-implementation correspondence. *)
+   PARTIAL.  Proved (on the reference reading `peg`, which C01_peg_equiv ties to the parser on `in_class`), for grammars whose
+   tokens only look forward (`fwd_class`: Literal, CaselessLiteral, Word without as_keyword, CharsNotIn, White, Empty, NoMatch,
+   LineEnd, StringEnd — Keyword, WordStart/End, LineStart, StringStart, GoToColumn are adjacency/position sensitive: F-09),
+   recursion through Forward, ZeroOrMore / OneOrMore (with or without stop_on), DelimitedList and Each with repeatable
+   operands INCLUDED (Proofs/Insens2.v; the first version, Proofs/Insens.v, excluded every repetition: `norep`):
+     * suffix locality (C09_suffix_local) and absorption of whitespace inserted where a whitespace-skipping element starts
+       (C09_insert_leading, C09_insert_at_start_of_element; C09_parser_* for the parser on C01's class);
+     * the INTERIOR statement for a sequence (C09_interior_sequence_partial, C09_insert_interior_partial,
+       C09_remove_interior_partial): two texts that differ only in the whitespace standing at a token boundary of an And - the
+       position where the derivation of a prefix es1 of its elements ends and a whitespace-skipping element e2 starts - are read
+       with the same tokens, the end moved by the difference.  PARTIAL: "the derivation of es1 is the same on both texts" is a
+       HYPOTHESIS (it is exactly what fails in F-09 and F-09b, C09_*_refuted below), and only the top-level boundaries of one
+       And are covered (a boundary inside a nested element is reached by applying the theorem to that element);
+       C09_insert_interior_literal_prefix_partial discharges the hypothesis for prefixes built from Literals / Words / And /
+       Group / Suppress whose last token is a Literal (C09_literal_prefix_determined: such a derivation inspects nothing at or
+       behind its end), leaving only "the prefix derivation of the ACCEPTED text ends at the insertion point";
+     * comments (C09_comment_preparse_partial, C09_comment_lands_partial), on the element semantics `pre_parse` itself run by
+       ANY handler of the `_parse` calls (the reference reading has no ignore expressions): a text that the ignore expression
+       matches completely, inserted where an element carrying that ONE ignore expression starts, is absorbed by its pre-parse.
+       PARTIAL: one ignore expression; the handler is assumed to answer the ignore expression behind the insertion as on the
+       original text (suffix locality of the parser WITH ignore expressions is not proved) and its matches to consume input;
+       the statement stops at the position where parseImpl starts.
+   Refuted on the faithful model (closed witnesses): C09_or_longest_refuted (F-09b), C09_keyword_adjacency_refuted (F-09).
+   Not proved: the Combine converse beyond C09_no_skip_in_leave_whitespace, several ignore expressions, named results (the
+   reading compares token lists).  These are decided by the metamorphic oracle of tools/props/c09.py on the implementation and
+   by the model-vs-implementation correspondence. *)
 From Coq Require Import List ZArith NArith Bool.
-From PP Require Import Model.Str Model.Results Model.Prog Model.Core Model.Peg Proofs.PegEquiv Proofs.Insens.
+From PP Require Import Model.Str Model.Results Model.Prog Model.Core Model.Peg Proofs.PegEquiv Proofs.Insens Proofs.Insens2.
 Import ListNotations.
 
 (* every whitespace-skipping element, started where extra whitespace was inserted, consumes it: its pre-parse lands at the
@@ -17,6 +35,9 @@ Theorem C09_skip_absorbs : forall w s ws, (forall c, In c w -> mem_char c ws = t
   skip_white (w ++ s) 0 ws = length w + skip_white s 0 ws.
 Proof. exact skip_white_absorb. Qed.
 
+(* ------------------------------------------------------------------------------------------------------------------ *)
+(* first version: no repetition construct (`norep`); subsumed by the theorems of the next block (norep -> fwd_class)   *)
+(* ------------------------------------------------------------------------------------------------------------------ *)
 (* the parse from a position on depends only on the text from that position on: prefixing any text x shifts every
    result by |x| and changes nothing else *)
 Theorem C09_suffix_local_partial : forall (G : env), forallb norep G = true ->
@@ -71,3 +92,207 @@ Example C09_instance :
   peg [] [97; 32; 98]%N 5 g 0 = POk 3 [TStr [97%N]; TStr [98%N]] /\
   peg [] ([32; 10]%N ++ [97; 32; 98]%N) 5 g 0 = POk 5 [TStr [97%N]; TStr [98%N]].
 Proof. vm_compute. repeat split. Qed.
+
+(* ------------------------------------------------------------------------------------------------------------------ *)
+(* (1) with repetitions: every grammar of forward-looking tokens (`fwd_class` has ZeroOrMore / OneOrMore, stop_on,        *)
+(*     DelimitedList's wrapper, Each with repeatable operands)                                                        *)
+(* ------------------------------------------------------------------------------------------------------------------ *)
+Theorem C09_norep_in_fwd_class : forall e, norep e = true -> fwd_class e = true.
+Proof. exact norep_fwd. Qed.
+
+(* what makes the length-derived loop bounds harmless: a successful reading never moves backwards and, when it advances,
+   ends at most one position behind the text (LineEnd / StringEnd at the end return len + 1) *)
+Theorem C09_reading_end_bounds : forall (G : env), forallb fwd_class G = true ->
+  forall s f e loc l ts, fwd_class e = true -> peg G s f e loc = POk l ts ->
+  loc <= l /\ l <= Nat.max loc (length s + 1).
+Proof. exact peg_end_bounds. Qed.
+
+Theorem C09_suffix_local : forall (G : env), forallb fwd_class G = true ->
+  forall x s f e k, fwd_class e = true ->
+  peg G (x ++ s) f e (length x + k) = shift (length x) (peg G s f e k).
+Proof. exact peg_shift2. Qed.
+
+Theorem C09_insert_leading : forall (G : env), forallb fwd_class G = true ->
+  forall w s f e, fwd_class e = true -> callpre (attrs_of e) && skipws (attrs_of e) = true ->
+  (forall c, In c w -> mem_char c (white (attrs_of e)) = true) ->
+  peg G (w ++ s) f e 0 = shift (length w) (peg G s f e 0).
+Proof. exact peg_absorb2. Qed.
+
+Theorem C09_insert_at_start_of_element : forall (G : env), forallb fwd_class G = true ->
+  forall x w s f e, fwd_class e = true -> callpre (attrs_of e) && skipws (attrs_of e) = true ->
+  (forall c, In c w -> mem_char c (white (attrs_of e)) = true) ->
+  peg G (x ++ w ++ s) f e (length x) = shift (length x + length w) (peg G s f e 0).
+Proof. exact peg_absorb_at. Qed.
+
+(* the same for the parser itself, on the proved class of C01 (ZeroOrMore / OneOrMore without stop_on are in it) *)
+Theorem C09_parser_insert_leading : forall (G : env), env_in_class G = true -> forallb fwd_class G = true ->
+  forall w s f e d, in_class G e = true -> fwd_class e = true -> callpre (attrs_of e) && skipws (attrs_of e) = true ->
+  (forall c, In c w -> mem_char c (white (attrs_of e)) = true) ->
+  proj (parse (step G) f (mkargs e (w ++ s) 0 d true)) =
+  option_map (shift (length w)) (proj (parse (step G) f (mkargs e s 0 d true))).
+Proof. exact parser_absorb2. Qed.
+
+Theorem C09_parser_insert_at_start_of_element : forall (G : env), env_in_class G = true -> forallb fwd_class G = true ->
+  forall x w s f e d, in_class G e = true -> fwd_class e = true -> callpre (attrs_of e) && skipws (attrs_of e) = true ->
+  (forall c, In c w -> mem_char c (white (attrs_of e)) = true) ->
+  proj (parse (step G) f (mkargs e (x ++ w ++ s) (length x) d true)) =
+  option_map (shift (length x + length w)) (proj (parse (step G) f (mkargs e s 0 d true))).
+Proof. exact parser_absorb_at. Qed.
+
+(* non-vacuity: DelimitedList(Word('ab')) = Word + ZeroOrMore(Suppress(',') + Word), outside `norep` *)
+Example C09_repetition_instance :
+  norep ydl = false /\ fwd_class ydl = true /\ in_class [] ydl = true /\
+  peg [] [97; 98; 44; 97; 98]%N 8 ydl 0 = POk 5 [TStr yab; TStr yab] /\
+  peg [] ([32; 10]%N ++ [97; 98; 44; 97; 98]%N) 8 ydl 0 = POk 7 [TStr yab; TStr yab].
+Proof. exact rep_instance. Qed.
+
+(* ------------------------------------------------------------------------------------------------------------------ *)
+(* (2) whitespace at an interior token boundary of a sequence                                                         *)
+(* ------------------------------------------------------------------------------------------------------------------ *)
+(* The And  es1 ++ e2 :: es2  is read on  u ++ w1 ++ v  and on  u ++ w2 ++ v  (w1, w2 over the whitespace set of e2).  If on
+   both texts the derivation of es1 ends at |u| with the same tokens ts1 (hypothesis: the prefix does not see the
+   difference), both readings are the reading of  e2 :: es2  on v alone, moved by |u| + |w1| resp. |u| + |w2| : same
+   tokens, same success/failure, ends differing by |w2| - |w1|. *)
+Theorem C09_interior_sequence_partial : forall (G : env), forallb fwd_class G = true ->
+  forall u w1 w2 v f a i es1 e2 es2 loc0 ts1,
+  fwd_class e2 = true -> Forall fwdP es2 ->
+  callpre (attrs_of e2) && skipws (attrs_of e2) = true ->
+  (forall c, In c w1 -> mem_char c (white (attrs_of e2)) = true) ->
+  (forall c, In c w2 -> mem_char c (white (attrs_of e2)) = true) ->
+  let e := Nary a i NAnd (es1 ++ e2 :: es2) in
+  peg_seq (peg G (u ++ w1 ++ v) f) es1 (eff (u ++ w1 ++ v) e loc0) [] = POk (length u) ts1 ->
+  peg_seq (peg G (u ++ w2 ++ v) f) es1 (eff (u ++ w2 ++ v) e loc0) [] = POk (length u) ts1 ->
+  peg G (u ++ w1 ++ v) (S f) e loc0 = shift (length u + length w1) (peg_seq (peg G v f) (e2 :: es2) 0 ts1) /\
+  peg G (u ++ w2 ++ v) (S f) e loc0 = shift (length u + length w2) (peg_seq (peg G v f) (e2 :: es2) 0 ts1).
+Proof. exact and_interior. Qed.
+
+(* insertion into an accepted text *)
+Theorem C09_insert_interior_partial : forall (G : env), forallb fwd_class G = true ->
+  forall u w v f a i es1 e2 es2 loc0 ts1 l ts,
+  fwd_class e2 = true -> Forall fwdP es2 ->
+  callpre (attrs_of e2) && skipws (attrs_of e2) = true ->
+  (forall c, In c w -> mem_char c (white (attrs_of e2)) = true) ->
+  let e := Nary a i NAnd (es1 ++ e2 :: es2) in
+  peg G (u ++ v) (S f) e loc0 = POk l ts ->
+  peg_seq (peg G (u ++ v) f) es1 (eff (u ++ v) e loc0) [] = POk (length u) ts1 ->
+  peg_seq (peg G (u ++ w ++ v) f) es1 (eff (u ++ w ++ v) e loc0) [] = POk (length u) ts1 ->
+  peg G (u ++ w ++ v) (S f) e loc0 = POk (length w + l) ts.
+Proof. exact and_insert_interior. Qed.
+
+(* removal from an accepted text *)
+Theorem C09_remove_interior_partial : forall (G : env), forallb fwd_class G = true ->
+  forall u w v f a i es1 e2 es2 loc0 ts1 l ts,
+  fwd_class e2 = true -> Forall fwdP es2 ->
+  callpre (attrs_of e2) && skipws (attrs_of e2) = true ->
+  (forall c, In c w -> mem_char c (white (attrs_of e2)) = true) ->
+  let e := Nary a i NAnd (es1 ++ e2 :: es2) in
+  peg G (u ++ w ++ v) (S f) e loc0 = POk (length w + l) ts ->
+  peg_seq (peg G (u ++ w ++ v) f) es1 (eff (u ++ w ++ v) e loc0) [] = POk (length u) ts1 ->
+  peg_seq (peg G (u ++ v) f) es1 (eff (u ++ v) e loc0) [] = POk (length u) ts1 ->
+  peg G (u ++ v) (S f) e loc0 = POk l ts.
+Proof. exact and_remove_interior. Qed.
+
+(* The prefix hypothesis discharged for a syntactic class of prefixes (`lf_seq true es1`, Proofs/Insens2.v): es1 is built
+   from non-empty Literals, Words (no as_keyword, no max), And, Group, Suppress, pass-through wrappers, and its LAST token
+   is a Literal - such a derivation inspects no character at or behind its end.  What remains assumed is a fact about the
+   ACCEPTED text only: the derivation of es1 ends at |u| (the definition of the token boundary). *)
+Theorem C09_insert_interior_literal_prefix_partial : forall (G : env), forallb fwd_class G = true ->
+  forall u w v f a i es1 e2 es2 loc0 ts1 l ts,
+  lf_seq true es1 = true ->
+  fwd_class e2 = true -> Forall fwdP es2 ->
+  callpre (attrs_of e2) && skipws (attrs_of e2) = true ->
+  (forall c, In c w -> mem_char c (white (attrs_of e2)) = true) ->
+  let e := Nary a i NAnd (es1 ++ e2 :: es2) in
+  peg G (u ++ v) (S f) e loc0 = POk l ts ->
+  peg_seq (peg G (u ++ v) f) es1 (eff (u ++ v) e loc0) [] = POk (length u) ts1 ->
+  peg G (u ++ w ++ v) (S f) e loc0 = POk (length w + l) ts.
+Proof. exact and_insert_interior_lf. Qed.
+
+(* the prefix-determinacy behind it: a successful reading of an element of the class is the same on every text that has
+   the same characters before its end (st = true) resp. up to and including its end (st = false: a Word looks at the
+   character that stops it) *)
+Theorem C09_literal_prefix_determined : forall (G : env) u t1 t2 f st e loc l ts, lf st e = true ->
+  peg G (u ++ t1) f e loc = POk l ts -> l + slack st <= length u ->
+  eff (u ++ t1) e loc < l /\ peg G (u ++ t2) f e loc = POk l ts.
+Proof. exact lf_ok. Qed.
+
+(* a JSON-like instance: obj = '{' + Word + ':' + val + '}', val = Word(digits) | Group('[' + val + ZeroOrMore(',' + val) + ']')
+   (val a Forward), text '{k:[1,2]}', blank + newline inserted between ':' and the value.  The second reading is obtained
+   by APPLYING C09_insert_interior_partial (Proofs/Insens2.v json_instance), its hypotheses hold of the instance. *)
+Example C09_json_instance :
+  (env_in_class xG = true /\ in_class xG xobj = true /\ forallb fwd_class xG = true /\ fwd_class xobj = true) /\
+  peg xG (xu ++ xv) 12 xobj 0 = POk 9 xresult /\
+  peg xG (xu ++ xw ++ xv) 12 xobj 0 = POk 11 xresult.
+Proof. exact (conj json_class json_instance). Qed.
+
+(* the same instance through C09_insert_interior_literal_prefix_partial: the prefix '{' Word ':' is of the class, nothing is
+   computed on the new text *)
+Example C09_json_instance_literal_prefix :
+  lf_seq true xpre = true /\ peg xG (xu ++ xw ++ xv) 12 xobj 0 = POk 11 xresult.
+Proof. exact json_instance_lf. Qed.
+
+(* Without the hypothesis on the prefix the interior statement is FALSE on the faithful model (and on the implementation):
+   F-09b.  (Suppress('ab') ^ DelimitedList(Word('ab'))) + ')' : a blank inserted at the token boundary in front of ')' in the
+   accepted text 'ab)' changes the token list from [')'] to ['ab', ')'].  Forward-looking tokens only, inside C01's class;
+   stated for the reading and for the parser. *)
+Theorem C09_or_longest_refuted :
+  exists (e : expr) (u w v : str) l1 ts1 l2 ts2,
+    fwd_class e = true /\ in_class [] e = true /\
+    (forall c, In c w -> mem_char c [32; 10; 9; 13]%N = true) /\
+    peg [] (u ++ v) 8 e 0 = POk l1 ts1 /\ peg [] (u ++ w ++ v) 8 e 0 = POk l2 ts2 /\
+    proj (parse (step []) 8 (mkargs e (u ++ v) 0 true true)) = Some (POk l1 ts1) /\
+    proj (parse (step []) 8 (mkargs e (u ++ w ++ v) 0 true true)) = Some (POk l2 ts2) /\
+    peg [] (u ++ v) 8 (xlit 41%N 43) (length u) = POk (S (length u)) [TStr [41%N]] /\
+    ts1 <> ts2.
+Proof. exact or_longest_refuted. Qed.
+
+(* F-09: outside the forward-looking tokens the property is false.  Group(Keyword('a') + 'b') | Literal('a') + 'b' :
+   removing the blank of the accepted text 'a b' changes [['a','b']] into ['a','b']. *)
+Theorem C09_keyword_adjacency_refuted :
+  exists (e : expr) (u w v : str) l1 ts1 l2 ts2,
+    in_class [] e = true /\ fwd_class e = false /\
+    (forall c, In c w -> mem_char c [32; 10; 9; 13]%N = true) /\
+    peg [] (u ++ w ++ v) 8 e 0 = POk l1 ts1 /\ peg [] (u ++ v) 8 e 0 = POk l2 ts2 /\
+    proj (parse (step []) 8 (mkargs e (u ++ w ++ v) 0 true true)) = Some (POk l1 ts1) /\
+    proj (parse (step []) 8 (mkargs e (u ++ v) 0 true true)) = Some (POk l2 ts2) /\
+    ts1 <> ts2.
+Proof. exact keyword_refuted. Qed.
+
+(* ------------------------------------------------------------------------------------------------------------------ *)
+(* (3) comments: expr.ignore(comment)                                                                                 *)
+(* ------------------------------------------------------------------------------------------------------------------ *)
+(* `pre_parse` (Model/Core.v: _skipIgnorables, then the element's own whitespace) of an element e with the single ignore
+   expression ig, run by ANY handler `rec` of the `_parse` calls, on  x ++ s  and on  x ++ c ++ s  from |x| : if `rec` answers
+   the call of ig at |x| on the new text by a match of exactly c, answers ig behind the insertion as on the original text
+   (osim) and lets every match of ig consume input within the text (advances), then whatever is done at the position reached
+   (k1 / k2, related by Q) is done at the same character on both texts. *)
+Theorem C09_comment_preparse_partial :
+  forall (rec : args -> option outcome) (Q : option outcome -> option outcome -> Prop) e ig x c s fail1 fail2 k1 k2,
+  ign_of e = [ig] -> plain_pre e -> c <> [] ->
+  (exists r, rec (mkargs ig (x ++ c ++ s) (length x) true true) = Some (Ok (length c + length x) r)) ->
+  (forall l, length x <= l -> l <= length (x ++ s) + 1 ->
+     osim (length c) (rec (mkargs ig (x ++ s) l true true)) (rec (mkargs ig (x ++ c ++ s) (length c + l) true true)) = true) ->
+  (forall l, length x <= l -> l <= length (x ++ s) + 1 ->
+     advances (length (x ++ s)) l (rec (mkargs ig (x ++ s) l true true)) = true) ->
+  Q None None -> Q (Some Div) (Some Div) ->
+  (forall p, length x <= p -> Q (run rec (k1 p)) (run rec (k2 (length c + p)))) ->
+  Q (run rec (pre_parse fail1 e (x ++ s) (length x) k1)) (run rec (pre_parse fail2 e (x ++ c ++ s) (length x) k2)).
+Proof. exact pre_parse_absorbs_comment. Qed.
+
+(* with the position observed: the pre-parse lands |c| further *)
+Theorem C09_comment_lands_partial : forall (rec : args -> option outcome) e ig x c s p,
+  ign_of e = [ig] -> plain_pre e -> c <> [] ->
+  (exists r, rec (mkargs ig (x ++ c ++ s) (length x) true true) = Some (Ok (length c + length x) r)) ->
+  forallb (fun l => osim (length c) (rec (mkargs ig (x ++ s) l true true)) (rec (mkargs ig (x ++ c ++ s) (length c + l) true true))
+                    && advances (length (x ++ s)) l (rec (mkargs ig (x ++ s) l true true)))
+          (seq (length x) (length s + 2)) = true ->
+  run rec (pre_parse escape e (x ++ s) (length x) obs) = Some (Ok p pr_empty) ->
+  run rec (pre_parse escape e (x ++ c ++ s) (length x) obs) = Some (Ok (length c + p) pr_empty).
+Proof. exact pre_parse_comment_lands. Qed.
+
+(* instance: Literal('b').ignore('#' + CharsNotIn('\n')) started at 1 on 'a\nb' and on 'a #hi\nb', the handler being the
+   parser `parse (step [])` itself; obtained by APPLYING C09_comment_lands_partial (Proofs/Insens2.v comment_instance) *)
+Example C09_comment_instance :
+  run (parse (step []) 6) (pre_parse escape celt ([97%N] ++ [10; 98]%N) 1 obs) = Some (Ok 2 pr_empty) /\
+  run (parse (step []) 6) (pre_parse escape celt ([97%N] ++ [32; 35; 104; 105]%N ++ [10; 98]%N) 1 obs) = Some (Ok 6 pr_empty).
+Proof. exact comment_instance. Qed.
